@@ -44,7 +44,8 @@ def validate_forests(files, module, cfg, verdict, sig_fn, workers_per=4, paralle
         env = {"TRACE_FILE": path}
         if env_extra:
             env.update(env_extra)
-        r = C.tlc(module, cfg, name="%s_%s" % (module, os.path.basename(path)), env=env,
+        cfg_here = cfg(path) if callable(cfg) else cfg
+        r = C.tlc(module, cfg_here, name="%s_%s" % (module, os.path.basename(path)), env=env,
                   workers=workers_per, timeout=timeout, heap="6g")
         return path, n, r
 
@@ -96,7 +97,8 @@ def drift_note(tot, verdict, what):
 
 
 def run_component(pid, tier, seed, driver, trace_module, trace_cfg, mc_runs, neg_controls, sig_fn, sample_fn,
-                  assumptions, impl_name, rule, driver_timeout=7200, workers_per=2, parallel=8, extra_cov=None):
+                  assumptions, impl_name, rule, driver_timeout=7200, workers_per=2, parallel=8, extra_cov=None,
+                  post_driver=None):
     """The whole pattern-A check: spec-level TLC runs, drive the real object, validate the forests, write evidence."""
     import subprocess
     t0 = time.time()
@@ -118,6 +120,8 @@ def run_component(pid, tier, seed, driver, trace_module, trace_cfg, mc_runs, neg
         if tot["nodes"] != summary["nodes"] and not v.machinery:
             v.machinery_failure("driver logged %d nodes, TLC judged %d" % (summary["nodes"], tot["nodes"]))
         samples = sample_fn(files)
+        if post_driver:
+            post_driver(summary, v)
     rc = v.finish()
     cov = {
         "states": tot["states"] + sum(m["distinct"] for m in mc),
